@@ -12,6 +12,7 @@ import (
 	"path/filepath"
 	"runtime"
 	"runtime/debug"
+	"sort"
 	"strings"
 	"sync"
 	"sync/atomic"
@@ -190,7 +191,11 @@ func WorkerMain() {
 			if d.Rec != nil {
 				res.Events = len(d.Rec.Events)
 				if !c.NoTrace {
-					h := sha1.Sum([]byte(d.Rec.Trace()))
+					tr := canonTrace(d.Rec.Trace())
+					if tf := os.Getenv("WRH_C01_TRACEFILE"); tf != "" {
+						os.WriteFile(tf, []byte(tr), 0o644)
+					}
+					h := sha1.Sum([]byte(tr))
 					res.Trace = hex.EncodeToString(h[:])
 				}
 			}
@@ -199,6 +204,27 @@ func WorkerMain() {
 		mu.Unlock()
 		cur.Store(-1)
 	}
+}
+
+// canonTrace sorts every run of consecutive anchor lines: their order within a page is the
+// iteration order of a Go map (a determinism matter, property C15), irrelevant to C01's
+// "same drawing with and without the invalid construct".
+func canonTrace(t string) string {
+	lines := strings.Split(t, "\n")
+	i := 0
+	for i < len(lines) {
+		if !strings.HasPrefix(lines[i], "0:Anchor ") {
+			i++
+			continue
+		}
+		j := i
+		for j < len(lines) && strings.HasPrefix(lines[j], "0:Anchor ") {
+			j++
+		}
+		sort.Strings(lines[i:j])
+		i = j
+	}
+	return strings.Join(lines, "\n")
 }
 
 func trimStack(s string) string {
